@@ -207,7 +207,9 @@ def check(pid, tier, seed, a, t0):
             indent=1,
         )
         violations.append({"what": o["name"], "replay": rp, "concrete": w is not None})
-    if not refuted:
+    # concrete failing inputs of the bounded search are always reported (also next to refuted obligations, and when every
+    # refuted obligation is a listed finding)
+    if True:
         seen_cls = set()
         for v in concrete:
             if v.get("witness_class") in seen_cls:
